@@ -469,8 +469,29 @@ class TheJoker:
             with model:
                 pm.Deterministic("t_peri", P * M0 / (2 * np.pi))
 
+        # what the likelihood below is built from (times relative to t_ref, in the
+        # data's velocity unit); kept on the model to recognise a repeated call
+        mcmc_data = (np.array(x), np.array(y), np.array(err), str(rv_unit), np.array(ids))
+
         if "obs" in model.named_vars:
+            # The model was already set up (e.g. to get another initial point). Its
+            # likelihood is for the data of that first call:
+            old = getattr(model, "_thejoker_mcmc_data", None)
+            if old is None or not (
+                old[3] == mcmc_data[3]
+                and all(
+                    a.shape == b.shape and np.all(a == b)
+                    for a, b in zip(old[:3] + old[4:], mcmc_data[:3] + mcmc_data[4:])
+                )
+            ):
+                msg = (
+                    "This model was already set up for MCMC with different data: "
+                    "create a new prior / pymc model for each data set."
+                )
+                raise ValueError(msg)
             return mcmc_init
+
+        model._thejoker_mcmc_data = mcmc_data
 
         with model:
             # Set up the orbit model
